@@ -384,8 +384,10 @@ func (sc *serverConn) readLoop() (err error) {
 				return errConnClosed
 			}
 
-			verifForwarded()
-			sc.reader <- fr
+			if !sc.forward(fr) {
+				return errConnClosed
+			}
+
 			continue
 		}
 
@@ -397,8 +399,10 @@ func (sc *serverConn) readLoop() (err error) {
 				sc.handleSettings(fr)
 				// forward to handleStreams so the INITIAL_WINDOW_SIZE delta is
 				// applied to open streams in frame order.
-				verifForwarded()
-				sc.reader <- fr
+				if !sc.forward(fr) {
+					return errConnClosed
+				}
+
 				continue
 			}
 		case FrameWindowUpdate:
@@ -410,8 +414,10 @@ func (sc *serverConn) readLoop() (err error) {
 			}
 
 			// the actual window bookkeeping happens in handleStreams.
-			verifForwarded()
-			sc.reader <- fr
+			if !sc.forward(fr) {
+				return errConnClosed
+			}
+
 			continue
 		case FramePing:
 			ping := fr.Body().(*Ping)
@@ -1766,6 +1772,24 @@ func (sc *serverConn) sendPingAndSchedule() {
 // write queues a frame for the peer. It drops the frame instead of blocking
 // once the connection is on its way out: the ping and idle timers queue frames
 // from their own goroutines and cannot know the write loop has gone.
+// forward hands a frame to the stream loop. It reports false when the stream
+// loop has ended, which it does by itself after some connection errors: nobody
+// takes frames out of reader then, and a peer that went on sending left the
+// read loop parked on the full channel, so ServeConn did not return even after
+// the peer had hung up. writeStop is closed right after the stream loop ends.
+func (sc *serverConn) forward(fr *FrameHeader) bool {
+	verifForwarded()
+
+	select {
+	case sc.reader <- fr:
+		return true
+	case <-sc.writeStop:
+		ReleaseFrameHeader(fr)
+
+		return false
+	}
+}
+
 func (sc *serverConn) write(fr *FrameHeader) {
 	select {
 	case sc.writer <- fr:
